@@ -341,7 +341,12 @@ def large_oracle(case):
     tol = 1e-9 * max(1.0, np.abs(obs).max())
     if not close(d["crps"], ref, tol):
         raise Violation(f"n={n}: crps {d['crps']!r} != definition {ref!r}")
-    if not close(d["uncertainty"], unc, tol):
+    # the kernel adds the n(n-1)/2 pair terms one after the other: allow
+    # the first-order rounding bound of that summation, N * 2^-53 * sum,
+    # twice over (1e-7 relative at n = 92683; an overflowing n*n or a wrong
+    # weight is off by orders of magnitude more)
+    tol_u = max(tol, n * (n - 1) / 2 * 2.0 ** -52 * abs(unc))
+    if not close(d["uncertainty"], unc, tol_u):
         raise Violation(f"n={n}: uncertainty {d['uncertainty']!r} != "
                         f"0.5 mean|y-y'| = {unc!r}")
     if not close(d["crps"], d["reliability"] + d["potential"], tol) or \
